@@ -1,9 +1,13 @@
 #!/usr/bin/env python3
 """Writes MANIFEST.json from checks.d/*.json + manifest_meta.json (edit those, then run this)."""
-import json, os, subprocess
+import json, os, subprocess, sys
 ROOT = os.path.dirname(os.path.abspath(__file__))
 checks = {f[:-5]: json.load(open(os.path.join(ROOT, "checks.d", f))) for f in sorted(os.listdir(os.path.join(ROOT, "checks.d"))) if f.endswith(".json")}
 meta = json.load(open(os.path.join(ROOT, "manifest_meta.json")))
+for a in sys.argv[1:]:
+    if a.startswith("--exclude="):
+        for x in a.split("=", 1)[1].split(","):
+            checks.pop(x, None)
 props = [json.loads(l) for l in open(os.path.join(ROOT, "properties.jsonl"))]
 hooks = subprocess.run(["git", "-C", "/repo", "log", "--format=%H %s"], capture_output=True, text=True).stdout.strip().split("\n")
 hook_commits = [l.split()[0] for l in hooks if " verif hook:" in l]
